@@ -367,7 +367,21 @@ def _free(k, uname, runs, steps, maxupd, prop_id, seed, sc, binary):
             "callbacks_observed": sum(len(s["obs"]["ev"]) for t in obs for s in t["steps"]),
             "retry_timer_fired": sum(1 for t in obs for s in t["steps"] if s["act"]["op"] == "Retry"),
             "rejected_by_spec": len(rej), "rejections_examined_up_to": 12}
+    _slim(obs, v["violations"])
     return dict(obs=obs, v=v, rejected=len(rej), samples=samples, info=info)
+
+
+def _slim(obs, violations, keep=3):
+    """The verdict, drift and counts are computed; of the observed traces only the
+    first few (evidence samples), the failed and the violating ones are kept
+    in full - a thorough run observes some six million steps."""
+    full = set(id(x["observed"]) for x in violations)
+    filler = {}
+    for n, t in enumerate(obs):
+        if n < keep or t.get("error") or id(t) in full:
+            continue
+        t["steps"] = [filler] * len(t["steps"])
+        t["init_obs"] = None
 
 
 def _scenario(k, uname, over, prop_id, tier, seed, sc, binary, replay):
@@ -420,6 +434,7 @@ def _scenario(k, uname, over, prop_id, tier, seed, sc, binary, replay):
             "paths": len(paths), "tlc_wall_s": round(tlc.wall, 1),
             "callbacks_observed": sum(len(s["obs"]["ev"]) for t in obs for s in t["steps"]),
             "timer_races": nr}
+    _slim(obs, v["violations"])
     return dict(tlc=tlc, g=g, paths=paths, unreach=unreach, obs=obs, v=v, drift=(a, b, c), races=nr, info=info)
 
 
